@@ -70,6 +70,9 @@ def _run(P, use_count):
                 m = gen.send(None)
                 while True:
                     msgs.append(m)
+                    if len(msgs) > 40 * (MAXN + 2):
+                        gen.close()
+                        return f"{who}:keeps-repeating-beyond-num"
                     if m.command == ("save" if use_count else "null"):
                         reps += 1
                     if stop_after is not None and reps >= stop_after and m.command in ("save", "null"):
